@@ -120,7 +120,8 @@ pub fn gen_orderbook_script(id: usize, rng: &mut Sm, n_calls: usize, dir: &str) 
         if r < 30 {
             // place_order: limit / market / off-grid
             let bid = rng.chance(0.5);
-            let vol = rng.range(1, 90) as u32;
+            // volume 0 is an in-range argument of the Python API: whatever the core does with it, the binding does the same
+            let vol = if rng.chance(0.03) { 0 } else { rng.range(1, 90) as u32 };
             let trader = rng.below(100) as u32;
             let market = rng.chance(0.12);
             let mut price = if market { None } else { Some(band.price(rng)) };
@@ -157,7 +158,7 @@ pub fn gen_orderbook_script(id: usize, rng: &mut Sm, n_calls: usize, dir: &str) 
             if np.is_some() && tick > 1 && rng.chance(0.15) {
                 np = Some(np.unwrap() + 1);
             }
-            let nv = if rng.chance(0.7) { Some(rng.range(1, 100) as u32) } else { None };
+            let nv = if rng.chance(0.7) { Some(if rng.chance(0.04) { 0 } else { rng.range(1, 100) as u32 }) } else { None };
             t += 1;
             b.set_time(t);
             calls.push(call("set_time", json!([t]), json!({}), json!({"v": null})));
@@ -428,6 +429,7 @@ fn market_data_expect(env: &Env, traded: &[u32]) -> Value {
 }
 
 pub struct LayoutStats {
+    pub bottom_of_range_scripts: usize,
     pub reads_before_first_step: usize,
     pub reads_between_submission_and_step: usize,
     pub quiet_steps: usize,
@@ -445,7 +447,13 @@ pub fn gen_layout_script(id: usize, rng: &mut Sm, numpy_env: bool, st: &mut Layo
     let seed = rng.next() >> 8;
     let mut env: Env = Env::new(t0, tick, step_size, true);
     let mut xr = Xoroshiro128StarStar::seed_from_u64(seed);
-    let center = rng.range(50, 3000);
+    // a tenth of the scripts live at the very bottom of the price range: bids reach price 0, so that the level walk
+    // below the touch runs out of prices
+    let bottom = rng.chance(0.1);
+    if bottom {
+        st.bottom_of_range_scripts += 1;
+    }
+    let center = if bottom { rng.range(1, 11) } else { rng.range(50, 3000) };
     let mut calls: Vec<Value> = Vec::new();
     let n_steps = rng.range(2, 12);
     let mut reenable = false;
@@ -480,6 +488,7 @@ pub fn gen_layout_script(id: usize, rng: &mut Sm, numpy_env: bool, st: &mut Layo
             let lo_off = if rng.chance(0.15) { 0 } else { 1 };
             // ladders populate every level 1..12 on both sides, so the deepest published levels are non-empty
             let off = if ladder { 1 + (if bid { k } else { k - nb }) as u64 } else { rng.range(lo_off, 12) };
+            let off = if bid { off.min(center) } else { off };
             let p = if bid { center - off } else { center + off } * tick as u64;
             sides.push(bid);
             vols.push(rng.range(1, if bid { 40 } else { 90 }) as u32);
@@ -705,7 +714,7 @@ pub fn write_scripts(seed: u64, n: usize, path: &str) -> i32 {
     let scratch = std::env::var("BVMON_SCRATCH").unwrap_or_else(|_| "/tmp".into());
     std::fs::create_dir_all(&scratch).ok();
     let mut scripts = Vec::new();
-    let mut st = LayoutStats { reads_before_first_step: 0, reads_between_submission_and_step: 0, quiet_steps: 0, steps_that_traded: 0, states: 0, asym_states: 0, keys: Vec::new() };
+    let mut st = LayoutStats { bottom_of_range_scripts: 0, reads_before_first_step: 0, reads_between_submission_and_step: 0, quiet_steps: 0, steps_that_traded: 0, states: 0, asym_states: 0, keys: Vec::new() };
     for i in 0..n {
         match i % 4 {
             0 => scripts.push(gen_orderbook_script(i, &mut rng, 60, &scratch).script),
@@ -839,7 +848,7 @@ pub fn c19(ctx: &Ctx) -> i32 {
     let n_scripts = ctx.tier.pick(2000, 25_000);
     let mut rng = Sm::derive(ctx.seed, 0xC19);
     let mut scripts = Vec::new();
-    let mut st = LayoutStats { reads_before_first_step: 0, reads_between_submission_and_step: 0, quiet_steps: 0, steps_that_traded: 0, states: 0, asym_states: 0, keys: Vec::new() };
+    let mut st = LayoutStats { bottom_of_range_scripts: 0, reads_before_first_step: 0, reads_between_submission_and_step: 0, quiet_steps: 0, steps_that_traded: 0, states: 0, asym_states: 0, keys: Vec::new() };
     for i in 0..n_scripts {
         scripts.push(gen_layout_script(i, &mut rng, i % 2 == 1, &mut st));
     }
@@ -896,6 +905,7 @@ pub fn c19(ctx: &Ctx) -> i32 {
         "states": st.states,
         "asymmetric_states": st.asym_states,
         "quiet_steps_with_empty_queue": st.quiet_steps,
+        "bottom_of_range_scripts": st.bottom_of_range_scripts,
         "reads_before_first_step": st.reads_before_first_step,
         "reads_between_submission_and_step": st.reads_between_submission_and_step,
         "steps_that_traded": st.steps_that_traded,
